@@ -69,10 +69,10 @@ pub struct Layout {
 }
 
 fn be16(d: &[u8], at: usize) -> Option<u16> {
-    Some(u16::from_be_bytes(d.get(at..at + 2)?.try_into().ok()?))
+    Some(u16::from_be_bytes(d.get(at..at.checked_add(2)?)?.try_into().ok()?))
 }
 fn be32(d: &[u8], at: usize) -> Option<u32> {
-    Some(u32::from_be_bytes(d.get(at..at + 4)?.try_into().ok()?))
+    Some(u32::from_be_bytes(d.get(at..at.checked_add(4)?)?.try_into().ok()?))
 }
 
 fn clip(data_len: usize, off: usize, len: usize) -> (usize, usize) {
@@ -363,7 +363,14 @@ pub fn analyse(d: &[u8]) -> Layout {
     let _ = ok;
     out.regions.retain(|r| r.len > 0);
     if matches!(out.kind, Kind::Sfnt | Kind::Ttc) {
-        add_anchors(d, &mut out);
+        // the anchor readers follow offsets of (possibly already damaged) data; they are written
+        // not to panic, but a slip there must not turn into a verdict about the library
+        let before = out.regions.len();
+        let ok = std::panic::catch_unwind(std::panic::AssertUnwindSafe(|| add_anchors(d, &mut out))).is_ok();
+        if !ok {
+            out.regions.truncate(before);
+            let _ = crate::engine::panics::take_last();
+        }
     }
     if out.regions.is_empty() {
         out.regions.push(Region {
@@ -589,8 +596,6 @@ fn table_anchors(name: &str, t: &[u8], d: &[u8], l: &Layout) -> Vec<(usize, usiz
         }
         "kern" => {
             push(0, 4, "header".into());
-            push(4, 14, "subtable0".into());
-            push(18, 12, "pairs".into());
         }
         "STAT" => {
             push(0, 20, "header".into());
@@ -611,12 +616,436 @@ fn table_anchors(name: &str, t: &[u8], d: &[u8], l: &Layout) -> Vec<(usize, usiz
     v
 }
 
+/// operators of a CFF / CFF2 DICT with their integer operands (reals are skipped); two-byte
+/// operators are reported as 0x0C00 | second byte
+fn dict_entries(td: &[u8]) -> Vec<(u16, Vec<i64>)> {
+    let mut out = Vec::new();
+    let mut ops: Vec<i64> = Vec::new();
+    let mut i = 0usize;
+    while i < td.len() {
+        let b0 = td[i];
+        match b0 {
+            32..=246 => {
+                ops.push(b0 as i64 - 139);
+                i += 1;
+            }
+            247..=250 if i + 1 < td.len() => {
+                ops.push((b0 as i64 - 247) * 256 + td[i + 1] as i64 + 108);
+                i += 2;
+            }
+            251..=254 if i + 1 < td.len() => {
+                ops.push(-(b0 as i64 - 251) * 256 - td[i + 1] as i64 - 108);
+                i += 2;
+            }
+            28 if i + 2 < td.len() => {
+                ops.push(i16::from_be_bytes([td[i + 1], td[i + 2]]) as i64);
+                i += 3;
+            }
+            29 if i + 4 < td.len() => {
+                ops.push(i32::from_be_bytes([td[i + 1], td[i + 2], td[i + 3], td[i + 4]]) as i64);
+                i += 5;
+            }
+            30 => {
+                i += 1;
+                while i < td.len() {
+                    let b = td[i];
+                    i += 1;
+                    if b & 0x0F == 0x0F || b >> 4 == 0x0F {
+                        break;
+                    }
+                }
+            }
+            12 if i + 1 < td.len() => {
+                out.push((0x0C00 | td[i + 1] as u16, std::mem::take(&mut ops)));
+                i += 2;
+            }
+            0..=27 | 31 => {
+                out.push((b0 as u16, std::mem::take(&mut ops)));
+                i += 1;
+            }
+            _ => break,
+        }
+    }
+    out
+}
+
+/// (end, [(offset, length)]) of a CFF INDEX with a 16- or 32-bit count
+fn cff_index_objects(d: &[u8], at: usize, wide: bool) -> Option<(usize, Vec<(usize, usize)>)> {
+    let (count, hdr) = if wide { (be32(d, at)? as usize, 4) } else { (be16(d, at)? as usize, 2) };
+    if count == 0 {
+        return Some((at + hdr, Vec::new()));
+    }
+    let osz = *d.get(at + hdr)? as usize;
+    if !(1..=4).contains(&osz) || count > 70_000 {
+        return None;
+    }
+    let arr = at + hdr + 1;
+    let data = arr + (count + 1) * osz;
+    let off = |i: usize| -> Option<usize> { Some(d.get(arr + i * osz..arr + (i + 1) * osz)?.iter().fold(0usize, |a, x| (a << 8) | *x as usize)) };
+    let mut objs = Vec::new();
+    for i in 0..count.min(64) {
+        let (a, b) = (off(i)?, off(i + 1)?);
+        if a < 1 || b < a {
+            return None;
+        }
+        objs.push((data + a - 1, b - a));
+    }
+    Some((data + off(count)?.checked_sub(1)?, objs))
+}
+
+/// OpenType Layout common structure: lookups and their subtables (GSUB / GPOS)
+fn otl_anchors(t: &[u8], ext_type: u16, v: &mut Vec<(usize, usize, String)>) {
+    let mut push = |off: usize, len: usize, what: String| {
+        if off < t.len() && v.len() < 160 {
+            v.push((off, len.min(t.len() - off), what));
+        }
+    };
+    push(0, 14, "header".into());
+    let minor = be16(t, 2).unwrap_or(0);
+    let (sl, fl, ll) = (be16(t, 4).unwrap_or(0) as usize, be16(t, 6).unwrap_or(0) as usize, be16(t, 8).unwrap_or(0) as usize);
+    if sl != 0 {
+        push(sl, 8, "scriptlist".into());
+        if let Some(so) = be16(t, sl + 6) {
+            let st = sl + so as usize;
+            push(st, 10, "script0".into());
+            if let Some(d) = be16(t, st) {
+                if d != 0 {
+                    push(st + d as usize, 10, "langsys".into());
+                }
+            }
+        }
+    }
+    if fl != 0 {
+        push(fl, 8, "featurelist".into());
+        for i in 0..3 {
+            if let Some(fo) = be16(t, fl + 2 + 6 * i + 4) {
+                push(fl + fo as usize, 8, format!("feature{}", i));
+            }
+        }
+    }
+    if minor >= 1 {
+        if let Some(fv) = be32(t, 10) {
+            let fv = fv as usize;
+            if fv != 0 {
+                push(fv, 16, "featurevariations".into());
+                if let (Some(cs), Some(fs)) = (be32(t, fv + 8), be32(t, fv + 12)) {
+                    push(fv + cs as usize, 12, "conditionset".into());
+                    if let Some(c0) = be32(t, fv + cs as usize + 2) {
+                        push(fv + cs as usize + c0 as usize, 8, "condition".into());
+                    }
+                    push(fv + fs as usize, 16, "featuresubst".into());
+                }
+            }
+        }
+    }
+    if ll == 0 {
+        return;
+    }
+    push(ll, 10, "lookuplist".into());
+    let n = be16(t, ll).unwrap_or(0) as usize;
+    for li in 0..n.min(12) {
+        let lo = match be16(t, ll + 2 + 2 * li) {
+            Some(o) => ll + o as usize,
+            None => break,
+        };
+        push(lo, 10, format!("lookup{}", li));
+        let ty = be16(t, lo).unwrap_or(0);
+        let cnt = be16(t, lo + 4).unwrap_or(0) as usize;
+        for si in 0..cnt.min(3) {
+            let mut so = match be16(t, lo + 6 + 2 * si) {
+                Some(o) => lo + o as usize,
+                None => break,
+            };
+            let mut sty = ty;
+            if ty == ext_type {
+                push(so, 8, format!("lookup{}-ext{}", li, si));
+                sty = be16(t, so + 2).unwrap_or(0);
+                so += be32(t, so + 4).unwrap_or(0) as usize;
+            }
+            push(so, 28, format!("lookup{}-t{}-sub{}", li, sty, si));
+            // coverage (offset at +2 for every format 1/2 subtable except contextual format 3)
+            if let Some(co) = be16(t, so + 2) {
+                if co != 0 {
+                    push(so + co as usize, 12, format!("lookup{}-sub{}-coverage", li, si));
+                }
+            }
+            // first set / rule / class definition referred to from the subtable header
+            for k in [6usize, 8, 10, 12] {
+                if let Some(o) = be16(t, so + k) {
+                    let o = o as usize;
+                    if o >= 6 && so + o < t.len() {
+                        push(so + o, 12, format!("lookup{}-sub{}-ref{}", li, si, k));
+                    }
+                }
+            }
+        }
+    }
+}
+
+/// anchors of the table kinds that only generated seeds contain (or whose structure needs a
+/// deeper reader than `table_anchors` has)
+fn extra_anchors(name: &str, t: &[u8]) -> Vec<(usize, usize, String)> {
+    let mut v: Vec<(usize, usize, String)> = Vec::new();
+    macro_rules! push {
+        ($off:expr, $len:expr, $what:expr) => {{
+            let off: usize = $off;
+            if off < t.len() && v.len() < 160 {
+                v.push((off, ($len as usize).min(t.len() - off), $what));
+            }
+        }};
+    }
+    match name {
+        "GSUB" => otl_anchors(t, 7, &mut v),
+        "GPOS" => otl_anchors(t, 9, &mut v),
+        "GDEF" => {
+            push!(0, 18, "header".into());
+            let minor = be16(t, 2).unwrap_or(0);
+            for (k, nm) in [(4usize, "glyphclass"), (6, "attachlist"), (8, "ligcaret"), (10, "markattach")] {
+                if let Some(o) = be16(t, k) {
+                    if o != 0 {
+                        push!(o as usize, 12, nm.to_string());
+                    }
+                }
+            }
+            if minor >= 2 {
+                if let Some(o) = be16(t, 12) {
+                    let o = o as usize;
+                    if o != 0 {
+                        push!(o, 12, "markglyphsets".into());
+                        if let Some(c) = be32(t, o + 4) {
+                            push!(o + c as usize, 12, "markglyphset0-coverage".into());
+                        }
+                    }
+                }
+            }
+            if minor >= 3 {
+                if let Some(o) = be32(t, 14) {
+                    if o != 0 {
+                        push!(o as usize, 12, "ivs".into());
+                    }
+                }
+            }
+        }
+        "kern" => {
+            // every subtable; format 2: class tables and the kerning array
+            let n = be16(t, 2).unwrap_or(0) as usize;
+            let mut at = 4usize;
+            for i in 0..n.min(4) {
+                push!(at, 14, format!("subtable{}", i));
+                let len = be16(t, at + 2).unwrap_or(0) as usize;
+                let format = t.get(at + 4).copied().unwrap_or(0);
+                if format == 2 {
+                    push!(at + 6, 8, format!("subtable{}-f2hdr", i));
+                    for (k, nm) in [(8usize, "left"), (10, "right"), (12, "array")] {
+                        if let Some(o) = be16(t, at + k) {
+                            push!(at + o as usize, 12, format!("subtable{}-f2{}", i, nm));
+                        }
+                    }
+                } else {
+                    push!(at + 14, 12, format!("subtable{}-pairs", i));
+                }
+                if len < 6 {
+                    break;
+                }
+                at += len;
+            }
+        }
+        "morx" => {
+            push!(0, 8, "header".into());
+            let mut at = 8usize;
+            let chains = be32(t, 4).unwrap_or(0) as usize;
+            for c in 0..chains.min(3) {
+                push!(at, 16, format!("chain{}", c));
+                let clen = be32(t, at + 4).unwrap_or(0) as usize;
+                let nfeat = be32(t, at + 8).unwrap_or(0) as usize;
+                let nsub = be32(t, at + 12).unwrap_or(0) as usize;
+                push!(at + 16, 12, format!("chain{}-feature0", c));
+                let mut sub = at + 16 + 12 * nfeat.min(64);
+                for k in 0..nsub.min(6) {
+                    push!(sub, 12, format!("chain{}-sub{}", c, k));
+                    // state table header: nClasses, classTable, stateArray, entryTable (+ per-type offsets)
+                    push!(sub + 12, 28, format!("chain{}-sub{}-stx", c, k));
+                    for (j, o) in [16usize, 20, 24, 28, 32].iter().enumerate() {
+                        if let Some(off) = be32(t, sub + o) {
+                            push!(sub + 12 + off as usize, 12, format!("chain{}-sub{}-part{}", c, k, j));
+                        }
+                    }
+                    let slen = be32(t, sub).unwrap_or(0) as usize;
+                    if slen < 12 {
+                        break;
+                    }
+                    sub += slen;
+                }
+                if clen < 16 {
+                    break;
+                }
+                at += clen;
+            }
+        }
+        "cvar" => {
+            push!(0, 8, "header".into());
+            push!(8, 24, "tuple-headers".into());
+            if let Some(o) = be16(t, 6) {
+                push!(o as usize, 32, "data".into());
+            }
+        }
+        "gvar" => {
+            // per glyph: tuple variation headers and the serialized data (packed points / deltas)
+            let n = be16(t, 12).unwrap_or(0) as usize;
+            let long = be16(t, 14).unwrap_or(0) & 1 == 1;
+            let data = be32(t, 16).unwrap_or(0) as usize;
+            let mut last = usize::MAX;
+            for g in 0..n.min(12) {
+                let off = if long { be32(t, 20 + 4 * g).map(|o| o as usize) } else { be16(t, 20 + 2 * g).map(|o| o as usize * 2) };
+                if let Some(off) = off {
+                    if off != last {
+                        let gd = data + off;
+                        if let Some(doff) = be16(t, gd + 2) {
+                            push!(gd + doff as usize, 28, format!("glyph{}-serialized", g));
+                        }
+                        last = off;
+                    }
+                }
+            }
+        }
+        "avar" => {
+            let n = be16(t, 6).unwrap_or(0) as usize;
+            let mut at = 8usize;
+            for i in 0..n.min(4) {
+                push!(at, 14, format!("map{}", i));
+                at += 2 + 4 * be16(t, at).unwrap_or(0) as usize;
+            }
+        }
+        "fvar" => {
+            let axes = be16(t, 4).unwrap_or(16) as usize;
+            let n = be16(t, 8).unwrap_or(0) as usize;
+            let asz = be16(t, 10).unwrap_or(20) as usize;
+            let ni = be16(t, 12).unwrap_or(0) as usize;
+            let isz = be16(t, 14).unwrap_or(0) as usize;
+            for i in 0..ni.min(3) {
+                push!(axes + n * asz + i * isz, isz.min(16), format!("instance{}", i));
+            }
+        }
+        "CFF " => {
+            // structures reached through Top DICT / Font DICT offsets
+            let hdr = *t.get(2).unwrap_or(&4) as usize;
+            let after_name = cff_index_objects(t, hdr, false).map(|x| x.0);
+            if let Some((_, tds)) = after_name.and_then(|a| cff_index_objects(t, a, false)) {
+                if let Some((o, l)) = tds.first() {
+                    let ents = t.get(*o..*o + *l).map(dict_entries).unwrap_or_default();
+                    let nglyphs = ents.iter().find(|e| e.0 == 17).and_then(|e| e.1.last()).and_then(|cs| be16(t, (*cs).max(0) as usize)).unwrap_or(0);
+                    let _ = nglyphs;
+                    for (op, vals) in &ents {
+                        let last = vals.last().copied().unwrap_or(0).max(0) as usize;
+                        match op {
+                            15 if last > 2 => push!(last, 16, "charset".into()),
+                            16 if last > 1 => push!(last, 12, "encoding".into()),
+                            18 if vals.len() >= 2 => {
+                                push!(last, (vals[0].max(0) as usize).min(40), "private".into());
+                                // Subrs (19) offset is relative to the Private DICT
+                                let size = vals[0].max(0) as usize;
+                                if let Some(pd) = t.get(last..last + size) {
+                                    for (pop, pv) in dict_entries(pd) {
+                                        if pop == 19 {
+                                            if let Some(so) = pv.last() {
+                                                push!(last + (*so).max(0) as usize, 12, "localsubrs".into());
+                                            }
+                                        }
+                                    }
+                                }
+                            }
+                            0x0C25 => push!(last, 16, "fdselect".into()),
+                            0x0C24 => {
+                                push!(last, 10, "fdarray".into());
+                                if let Some((_, fds)) = cff_index_objects(t, last, false) {
+                                    for (i, (fo, fl)) in fds.iter().take(3).enumerate() {
+                                        push!(*fo, (*fl).min(24), format!("fontdict{}", i));
+                                        for (fop, fv) in t.get(*fo..*fo + *fl).map(dict_entries).unwrap_or_default() {
+                                            if fop == 18 && fv.len() >= 2 {
+                                                push!(fv[1].max(0) as usize, (fv[0].max(0) as usize).min(32), format!("fd{}-private", i));
+                                            }
+                                        }
+                                    }
+                                }
+                            }
+                            _ => {}
+                        }
+                    }
+                }
+            }
+        }
+        "CFF2" => {
+            let hdr = *t.get(2).unwrap_or(&5) as usize;
+            let tdl = be16(t, 3).unwrap_or(0) as usize;
+            let ents = t.get(hdr..hdr + tdl).map(dict_entries).unwrap_or_default();
+            for (op, vals) in &ents {
+                let last = vals.last().copied().unwrap_or(0).max(0) as usize;
+                match op {
+                    17 => {
+                        push!(last, 12, "charstrings-index".into());
+                        if let Some((_, objs)) = cff_index_objects(t, last, true) {
+                            for (i, (o, l)) in objs.iter().take(5).enumerate() {
+                                push!(*o, (*l).min(28), format!("charstring{}", i));
+                            }
+                        }
+                    }
+                    24 => {
+                        // VariationStore: uint16 length, then an ItemVariationStore
+                        push!(last, 14, "vstore".into());
+                        if let Some(ro) = be32(t, last + 2 + 2) {
+                            push!(last + 2 + ro as usize, 16, "vstore-regions".into());
+                        }
+                        if let Some(d0) = be32(t, last + 2 + 8) {
+                            push!(last + 2 + d0 as usize, 16, "vstore-ivd0".into());
+                        }
+                    }
+                    0x0C25 => push!(last, 16, "fdselect".into()),
+                    0x0C24 => {
+                        push!(last, 12, "fdarray".into());
+                        if let Some((_, fds)) = cff_index_objects(t, last, true) {
+                            for (i, (fo, fl)) in fds.iter().take(3).enumerate() {
+                                push!(*fo, (*fl).min(24), format!("fontdict{}", i));
+                                for (fop, fv) in t.get(*fo..*fo + *fl).map(dict_entries).unwrap_or_default() {
+                                    if fop == 18 && fv.len() >= 2 {
+                                        let (psize, poff) = (fv[0].max(0) as usize, fv[1].max(0) as usize);
+                                        push!(poff, psize.min(32), format!("fd{}-private", i));
+                                        if let Some(pd) = t.get(poff..poff + psize) {
+                                            for (pop, pv) in dict_entries(pd) {
+                                                if pop == 19 {
+                                                    if let Some(so) = pv.last() {
+                                                        push!(poff + (*so).max(0) as usize, 12, format!("fd{}-localsubrs", i));
+                                                    }
+                                                }
+                                            }
+                                        }
+                                    }
+                                }
+                            }
+                        }
+                    }
+                    _ => {}
+                }
+            }
+            // global subrs follow the Top DICT
+            if let Some((_, objs)) = cff_index_objects(t, hdr + tdl, true) {
+                for (i, (o, l)) in objs.iter().take(3).enumerate() {
+                    push!(*o, (*l).min(16), format!("gsubr{}", i));
+                }
+            }
+        }
+        _ => {}
+    }
+    v
+}
+
 fn add_anchors(d: &[u8], l: &mut Layout) {
     let tables: Vec<Region> = l.regions.iter().filter(|r| r.class == RClass::Table).cloned().collect();
     let mut extra = Vec::new();
     for r in &tables {
         let t = &d[r.off..r.off + r.len];
-        for (off, len, what) in table_anchors(&r.name, t, d, l) {
+        let mut found = table_anchors(&r.name, t, d, l);
+        found.extend(extra_anchors(&r.name, t));
+        for (off, len, what) in found {
             if len > 0 {
                 extra.push(Region { name: format!("{}@{}", r.name, what), class: RClass::Anchor, off: r.off + off, len });
             }
@@ -877,6 +1306,10 @@ pub struct Seed {
     pub name: String,
     pub bytes: Vec<u8>,
     pub kind: Kind,
+    /// user-space tuples (raw 16.16) of the model the seed was generated from
+    pub tuples: Vec<Vec<i32>>,
+    /// carries layout tables worth a light shaping call
+    pub shape: bool,
 }
 
 fn generated_seeds() -> Vec<Seed> {
@@ -992,7 +1425,7 @@ fn generated_seeds() -> Vec<Seed> {
     v.into_iter()
         .map(|(n, b)| {
             let kind = analyse(&b).kind;
-            Seed { name: n.to_string(), bytes: b, kind }
+            Seed { name: n.to_string(), bytes: b, kind, tuples: Vec::new(), shape: false }
         })
         .collect()
 }
@@ -1225,7 +1658,7 @@ pub fn seeds() -> &'static [Seed] {
         for n in names {
             if let Some(b) = fixtures::read(&n) {
                 let kind = analyse(&b).kind;
-                v.push(Seed { name: n, bytes: b, kind });
+                v.push(Seed { name: n, bytes: b, kind, tuples: Vec::new(), shape: false });
             }
         }
         // stored-stream variants of the WOFF2 fixtures
@@ -1233,11 +1666,29 @@ pub fn seeds() -> &'static [Seed] {
             .iter()
             .filter(|s| s.kind == Kind::Woff2)
             .filter_map(|s| {
-                woff2_stored_variant(&s.bytes).map(|b| Seed { name: format!("gen:stored:{}", s.name), bytes: b, kind: Kind::Woff2 })
+                woff2_stored_variant(&s.bytes).map(|b| Seed { name: format!("gen:stored:{}", s.name), bytes: b, kind: Kind::Woff2, tuples: Vec::new(), shape: false })
             })
             .collect();
         v.extend(stored);
         v.extend(generated_seeds());
+        // one or more tiny generated fonts per table kind / format (appended, so that the
+        // indices of the seeds above stay what they were)
+        let gen: Vec<Seed> = super::gen::all()
+            .into_iter()
+            .map(|g| {
+                let kind = analyse(&g.bytes).kind;
+                Seed { name: g.name, bytes: g.bytes, kind, tuples: g.tuples, shape: g.shape }
+            })
+            .collect();
+        let stored: Vec<Seed> = gen
+            .iter()
+            .filter(|s| s.kind == Kind::Woff2)
+            .filter_map(|s| {
+                woff2_stored_variant(&s.bytes).map(|b| Seed { name: format!("gen:stored:{}", s.name), bytes: b, kind: Kind::Woff2, tuples: Vec::new(), shape: false })
+            })
+            .collect();
+        v.extend(gen);
+        v.extend(stored);
         v
     })
 }
@@ -1257,7 +1708,7 @@ pub fn groups() -> &'static Groups {
     GROUPS.get_or_init(|| {
         let mut g = Groups { aots: vec![], webfonts: vec![], small: vec![], large: vec![], generated: vec![] };
         for (i, s) in seeds().iter().enumerate() {
-            if s.name.starts_with("gen:stored:") {
+            if s.name.starts_with("gen:") && matches!(s.kind, Kind::Woff | Kind::Woff2 | Kind::Ttc) {
                 g.webfonts.push(i);
             } else if s.name.starts_with("gen:") {
                 g.generated.push(i);
@@ -1278,8 +1729,8 @@ pub fn groups() -> &'static Groups {
 /// weighted seed choice from two random words
 pub fn choose_seed(group_r: u32, r: u32) -> usize {
     let g = groups();
-    // weights: small 40, webfonts 20, aots 15, generated 15, large 10
-    let table: [(&Vec<usize>, u32); 5] = [(&g.small, 40), (&g.webfonts, 20), (&g.aots, 15), (&g.generated, 15), (&g.large, 10)];
+    // weights: small 30, generated 30, webfonts 20, aots 12, large 8
+    let table: [(&Vec<usize>, u32); 5] = [(&g.small, 30), (&g.webfonts, 20), (&g.aots, 12), (&g.generated, 30), (&g.large, 8)];
     let total: u32 = table.iter().filter(|(v, _)| !v.is_empty()).map(|(_, w)| *w).sum();
     if total == 0 {
         return 0;
